@@ -436,7 +436,7 @@ impl World {
                             let s = (slot as u32 % nslots) as usize;
                             let key = KEY_SLOT | s as u32;
                             let old = edges[s].set(cc);
-                            let old_t = w.m.borrow_mut().objs[id as usize].edges.insert(key, target);
+                            let old_t = w.m.borrow_mut().edge_insert(id, key, target);
                             if let (Some(oc), Some(ot)) = (old, old_t) {
                                 replaced.push((oc, ot)); // two requests landed on the same position
                             }
